@@ -18,7 +18,7 @@ use std::io::Write;
 pub const META_C16: Meta = Meta {
     id: "C16",
     level: "exploration",
-    rule: "Exhaustive: every list of 1-3 elements over codings {gzip, identity, *, br, deflate, x-gzip} (thorough: also every list of 4 elements over {gzip, identity, *, br}) x weights {none, 0, 0., 0.0, 0.000, 0.001, 0.009, 0.01, 0.05, 0.1, 0.5, 0.999, 1, 1., 1.000} (one-, two- and three-decimal spellings whose order a scaling error would change), rendered with a rotating set of optional-whitespace patterns around ',' and ';'; every pair of the 1001 qvalues for gzip vs identity (and adjacent pairs with *); absent and empty header; empty and whitespace-only list elements in every slot (ignored, RFC 7230 section 7); a deciding element after k in {0..100} irrelevant elements, with and without an earlier relevant element (position independence); proptest for lists of up to 40 elements and random whitespace; arbitrary HeaderValue bytes for the no-panic clause. Oracle: independent evaluator in thousandths (gzip's quality else *'s else unacceptable; identity's else *'s else least-preferred acceptable; gzip > 0 and gzip >= identity); a coding listed twice admits the answers of either occurrence. Non-trivial = at least two of {gzip, identity, *} occur, at least one with a weight; distinct by header value.",
+    rule: "Exhaustive: every list of 1-3 elements over codings {gzip, identity, *, br, deflate, x-gzip} (thorough: also every list of 4 elements over {gzip, identity, *, br}) x weights {none, 0, 0., 0.0, 0.000, 0.001, 0.009, 0.01, 0.05, 0.1, 0.5, 0.999, 1, 1., 1.000} (one-, two- and three-decimal spellings whose order a scaling error would change), rendered with a rotating set of optional-whitespace patterns (none, spaces, tabs, and runs mixing both in either order) around ',' and ';'; every pair of the 1001 qvalues for gzip vs identity (and adjacent pairs with *); absent and empty header; empty and whitespace-only list elements in every slot (ignored, RFC 7230 section 7); a deciding element after k in {0..100} irrelevant elements, with and without an earlier relevant element (position independence); proptest for lists of up to 40 elements and random whitespace; arbitrary HeaderValue bytes for the no-panic clause. Oracle: independent evaluator in thousandths (gzip's quality else *'s else unacceptable; identity's else *'s else least-preferred acceptable; gzip > 0 and gzip >= identity); a coding listed twice admits the answers of either occurrence. Non-trivial = at least two of {gzip, identity, *} occur, at least one with a weight; distinct by header value.",
     assumptions: &["codings and 'q' are lower case, as in the statement's domain", "a coding listed more than once: any answer consistent with one choice of occurrence is accepted"],
 };
 
@@ -49,7 +49,20 @@ pub const WEIGHTS: &[Option<&str>] = &[
 ];
 
 /// (before ';', after ';', before ',', after ',')
-pub const OWS_PATTERNS: &[(&str, &str, &str, &str)] = &[("", "", "", ""), ("", "", "", " "), (" ", " ", " ", " "), ("", " ", "", "\t"), ("\t", "", " ", ""), ("", "", "  ", "  ")];
+pub const OWS_PATTERNS: &[(&str, &str, &str, &str)] = &[
+    ("", "", "", ""),
+    ("", "", "", " "),
+    (" ", " ", " ", " "),
+    ("", " ", "", "\t"),
+    ("\t", "", " ", ""),
+    ("", "", "  ", "  "),
+    // runs that mix the two kinds of optional whitespace, in both orders, on every side
+    (" \t", "\t ", " \t", "\t "),
+    ("\t ", " \t", "\t ", " \t"),
+    ("", "\t ", "", "\t "),
+    (" \t", "", " \t", ""),
+    ("\t \t", " \t ", "\t\t ", "  \t"),
+];
 
 pub fn render(elems: &[(usize, usize)], pat: usize) -> String {
     let (bs, as_, bc, ac) = OWS_PATTERNS[pat % OWS_PATTERNS.len()];
@@ -342,6 +355,20 @@ pub fn run_c16(cx: &Cx) -> Acc {
                     let v = Some(Bs::s(&render(&list, k + last_w)));
                     acc.run_case(cx, "long-lists", &v, |acc| check_c16(&v, acc));
                 }
+            }
+        }
+    }));
+    // Every whitespace pattern on every list of 1-2 elements (the exhaustive phase rotates them).
+    let pats: Vec<usize> = (0..OWS_PATTERNS.len()).collect();
+    acc.merge(par_units(cx, "all-whitespace-patterns", &pats, true, "every list of 1-2 elements over 6 codings x 15 weights under each optional-whitespace pattern", |cx, &pat, acc| {
+        let n_el = CODINGS.len() * WEIGHTS.len();
+        let el = |i: usize| (i / WEIGHTS.len(), i % WEIGHTS.len());
+        for a in 0..n_el {
+            let v = Some(Bs::s(&render(&[el(a)], pat)));
+            acc.run_case(cx, "all-whitespace-patterns", &v, |acc| check_c16(&v, acc));
+            for b in 0..n_el {
+                let v = Some(Bs::s(&render(&[el(a), el(b)], pat)));
+                acc.run_case(cx, "all-whitespace-patterns", &v, |acc| check_c16(&v, acc));
             }
         }
     }));
